@@ -129,6 +129,80 @@ def run(ctx, ck):
           '%d parameter-precondition assertions in the taper generators reachable from main '
           '(expected 0; the self-test re-inserts one to show the rule fires)' % n_as)
 
+    # ---------------------------------------------------------------- asserts on values that may be None
+    # `assert p is not None` in a function main calls states a belief about its caller; main hands the function an
+    # option value that is None whenever the option is not given (no default registered): AssertionError is caught
+    # nowhere on that path
+    ck.rule('R-EXC.assert-none', 'no `assert p is not None` is reached from main with an option value that may be None')
+    from ..cli import registered_options
+    opts_ = registered_options(mainf)
+    maybe_none = set()
+    for o_ in set(opts_.values()):
+        if o_.default is None and o_.action not in ('store_true', 'store_false', 'count', 'append') :
+            maybe_none.add(o_.dest)
+        elif isinstance(o_.default, ast.Constant) and o_.default.value is None:
+            maybe_none.add(o_.dest)
+
+    def option_none(v_):
+        return isinstance(v_, ast.Attribute) and isinstance(v_.value, ast.Name) and v_.value.id == 'args' and v_.attr in maybe_none
+    bundles_ = {}
+    for s_ in walk_no_nested(mainf.node):
+        if isinstance(s_, ast.Assign) and len(s_.targets) == 1:
+            t_ = s_.targets[0]
+            if isinstance(t_, ast.Name) and isinstance(s_.value, ast.Call) and isinstance(s_.value.func, ast.Name) and \
+               s_.value.func.id == 'dict' and not s_.value.args:
+                for k_ in s_.value.keywords:
+                    if k_.arg is not None:
+                        bundles_.setdefault(t_.id, {}).setdefault(k_.arg, []).append(k_.value)
+            elif isinstance(t_, ast.Name) and isinstance(s_.value, ast.Dict):
+                for k_, v_ in zip(s_.value.keys, s_.value.values):
+                    if isinstance(k_, ast.Constant) and isinstance(k_.value, str):
+                        bundles_.setdefault(t_.id, {}).setdefault(k_.value, []).append(v_)
+            elif isinstance(t_, ast.Subscript) and isinstance(t_.value, ast.Name) and isinstance(t_.slice, ast.Constant) and \
+                    isinstance(t_.slice.value, str):
+                bundles_.setdefault(t_.value.id, {}).setdefault(t_.slice.value, []).append(s_.value)
+    n_an = 0
+    for c_ in walk_no_nested(mainf.node):
+        if not isinstance(c_, ast.Call):
+            continue
+        # the callee as the call graph resolves it (receiver types), else a name that is unique in the closure
+        cands_ = [ed_.callee for ed_ in ctx.program.edges.get(mainf.qual, []) if ed_.node is c_ and ed_.kind in ("call", "ctor")]
+        if not cands_:
+            nm_ = c_.func.attr if isinstance(c_.func, ast.Attribute) else (c_.func.id if isinstance(c_.func, ast.Name) else None)
+            cands_ = [g_ for g_ in m.all_funcs() if g_.name == nm_ and g_.qual in closure] if nm_ else []
+        if len(cands_) != 1:
+            continue
+        g_ = cands_[0]
+        asserted = set()
+        for a_ in walk_no_nested(g_.node):
+            if isinstance(a_, ast.Assert):
+                for x_ in ast.walk(a_.test):
+                    if isinstance(x_, ast.Compare) and len(x_.ops) == 1 and isinstance(x_.ops[0], ast.IsNot) and \
+                       isinstance(x_.left, ast.Name) and x_.left.id in g_.all_params and \
+                       isinstance(x_.comparators[0], ast.Constant) and x_.comparators[0].value is None:
+                        asserted.add(x_.left.id)
+        if not asserted:
+            continue
+        given = {}
+        params_ = g_.bound_params() if g_.cls is not None else list(g_.params)
+        for i_, a_ in enumerate(c_.args):
+            if i_ < len(params_):
+                given.setdefault(params_[i_], []).append(a_)
+        for k_ in c_.keywords:
+            if k_.arg is not None:
+                given.setdefault(k_.arg, []).append(k_.value)
+            elif isinstance(k_.value, ast.Name) and k_.value.id in bundles_:
+                for kk_, vs_ in bundles_[k_.value.id].items():
+                    given.setdefault(kk_, []).extend(vs_)
+        for p_ in sorted(asserted):
+            n_an += 1
+            bad_ = [v_ for v_ in given.get(p_, []) if option_none(v_)]
+            ck.ob('R-EXC.assert-none', '%s|%s' % (g_.qual, p_), not bad_, mainf.loc(c_),
+                  '%s asserts `%s is not None`; main passes %s, which is None when the option is not given: AssertionError '
+                  'escapes main (no report, no diagnostic)' % (g_.qual, p_, norm(bad_[0])) if bad_ else
+                  '%s asserts `%s is not None`; main passes %s' % (g_.qual, p_, [norm(v_) for v_ in given.get(p_, [])] or 'nothing (the default)'))
+    ck.info('asserted_not_none_parameters_called_from_main', n_an)
+
     # ---------------------------------------------------------------- none-sentinel contradictions
     ck.rule('R-BELIEF.none-sentinel', 'a parameter meaning "not given" when None is never branched on by truth value elsewhere')
     from ._sentinel import check_none_sentinel
